@@ -221,7 +221,7 @@ theorem impliedLin_sound (ho : LinLike o) (env : Nat → α) : ImpSound o env im
       cases h
       have hm := List.mem_of_find?_eq_some hf
       have hc := List.find?_some hf
-      rw [condOK_sound hr env hc]; exact hp cb hm
+      rw [condOK_sound_w hr env hc]; exact hp cb hm
     · exact impliedAtomLin_sound ho env (normPath_sound' ho env hp) h
   induction c with
   | not c ih =>
